@@ -80,6 +80,22 @@ ALL_ENTRIES = sorted([c, r, a] for c in CLIENTS for r in ('s1', 's2', SYS, 'j1',
                      for a in ACTIONS)
 
 
+def needs(call):
+    """Authz!Needs: the entry of the call itself, then the entries of the calls the handler makes in the caller's name"""
+    out = [[call['c'], resource_of(call), action_of(call['m'])]]
+    if call['m'] == 'SetCursor':
+        out.append([call['c'], SYS, 'Publish'])
+    return out
+
+
+def missing_needs(policy, call):
+    """which of the entries the call needs are not in the policy: 'none', 'outer', 'inner' (only nested ones), 'both'"""
+    n = needs(call)
+    outer = n[0] not in policy
+    inner = any(e not in policy for e in n[1:])
+    return 'both' if outer and inner else 'outer' if outer else 'inner' if inner else 'none'
+
+
 def toggled(pol, entry):
     return sorted([e for e in pol if e != entry] if entry in pol else pol + [entry])
 
@@ -96,11 +112,15 @@ def sharpen(b, rng):
     wrong action / resource / client in the check), for an authorised one ONLY the entries it needs."""
     c = b['steps'][0]['call']
     pol = b['cfg']['policy']
-    entry = [c['c'], resource_of(c), action_of(c['m'])]
-    if unauthorised(pol, c):
-        new = [e for e in ALL_ENTRIES if e != entry]
+    entry = b.get('toggle') or needs(c)[0]      # the entry the tail of the behaviour toggles
+    kind = missing_needs(pol, c)
+    if kind in ('outer', 'both'):
+        new = [e for e in ALL_ENTRIES if e != needs(c)[0]]
+    elif kind == 'inner':
+        # the call holds its own entry; the entries of its nested calls are what is missing
+        new = [e for e in ALL_ENTRIES if e not in needs(c)[1:] or e in pol]
     else:
-        new = [entry] + ([[c['c'], '__cursors', 'Publish']] if c['m'] == 'SetCursor' else [])
+        new = needs(c)
     if rng.random() < 0.2:
         return b
     new = sorted(new)
@@ -120,14 +140,16 @@ def sharpen(b, rng):
     return b
 
 
-def with_tail(b, rng=None):
+def with_tail(b, rng=None, entry=None):
     """completes a behaviour to: call, toggle the call's entry in the file, reload, same call again (the tail of
     MC_Authz: MCEdit, MCReload, MCCall) - revocation / grant must take effect for the next call, also for the next
     message of an open PublishAsync session"""
     c = b['steps'][0]['call']
     if c['s'] == SYS and c['m'] not in HARMLESS_ON_SYS:
         return b      # the second call would be an authorised write to the cursors stream (MC_Authz!MCCall guard)
-    entry = [c['c'], resource_of(c), action_of(c['m'])]
+    if entry is None:
+        entry = rng.choice(needs(c)) if rng is not None else needs(c)[0]      # MCEdit: any entry the call needs
+    b['toggle'] = entry
     cur = toggled(list(b['cfg']['policy']), entry)
     mid = []
     if rng is not None and rng.random() < 0.5:
@@ -182,6 +204,21 @@ def visible_variant(b):
     return nb
 
 
+def nested_variant(b):
+    """A call whose handler makes further calls in the caller's name (Authz!Needs has more than one entry) from the
+    effect-visible start situation, under the policy that grants everything EXCEPT the entries of the nested calls:
+    the call holds its own entry and is refused further in."""
+    c = b['steps'][0]['call']
+    if len(needs(c)) < 2 or c['s'] == SYS:
+        return None
+    nb = visible_variant(b)
+    if nb is None:
+        return None
+    nb['cfg']['policy'] = sorted(e for e in ALL_ENTRIES if e not in needs(c)[1:])
+    nb.pop('toggle', None)
+    return nb
+
+
 def warmup_variant(b):
     """MC_Authz!MCOther, in the order that matters for a decision that leaks between triples: first the ENTITLED
     client makes the request on the other user stream (granted), then the client without the entry makes the same
@@ -225,7 +262,14 @@ def to_behaviour(bid, sim):
             steps.append({'a': 'Cancel', 'call': s['last']['call']})
         else:
             steps.append({'a': 'Reload'})
-    return {'id': bid, 'cfg': cfg, 'steps': steps}
+    b = {'id': bid, 'cfg': cfg, 'steps': steps}
+    for st in steps:          # which entry the tail toggles: the difference between the first new revision and the start
+        if 'policy' in st:
+            diff = [e for e in st['policy'] if e not in cfg['policy']] + [e for e in cfg['policy'] if e not in st['policy']]
+            if len(diff) == 1:
+                b['toggle'] = diff[0]
+            break
+    return b
 
 
 def unauthorised(policy, call):
@@ -237,8 +281,8 @@ def stratum(b):
     c = b['steps'][0]['call']
     s1 = b['cfg']['st'][c['s']]
     member = c['c'] in b['cfg']['members'] if c['m'] in GROUP_METHODS else False
-    return (c['m'], c['s'] == SYS, c['resume'], c['grp'], c['epoch'] if c['grp'] else 0, not unauthorised(b['cfg']['policy'], c), member,
-            s1['exists'], s1['paused'], s1['readonly'], s1['gsub']['cid'] != '')
+    return (c['m'], c['s'] == SYS, c['resume'], c['grp'], c['epoch'] if c['grp'] else 0, missing_needs(b['cfg']['policy'], c) == 'none', member,
+            s1['exists'], s1['paused'], s1['readonly'], s1['gsub']['cid'] != '', missing_needs(b['cfg']['policy'], c))
 
 
 def features(b, step_index):
@@ -323,6 +367,8 @@ def execute(d, behaviours, test='^TestVerifC15$', env=None, shards=1, stats=None
 
 
 def judge(rep, trace, lines, behaviours, stats):
+    if not lines:
+        return      # nothing was recorded (the test process gave up before the first behaviour started): see settle
     res = core.tlc_trace('Trace_Authz.tla', 'Trace_Authz.cfg', trace, timeout=1500)
     by_id = {b['id']: b for b in behaviours}
     first = {}
@@ -447,6 +493,20 @@ def run(rep, tier, seed, replay):
             seen_shape.add(k)
             extra.append(v)
     chosen += extra
+    # calls that make further calls in the caller's name: own entry held, the nested ones missing (once as it is, once
+    # followed by granting the nested entry, reload, same call)
+    import copy as _copy
+    seen_nested = set()
+    for b in list(chosen):
+        c = b['steps'][0]['call']
+        if (c['m'], c['c']) in seen_nested:
+            continue
+        v = nested_variant(b)
+        if v is not None:
+            seen_nested.add((c['m'], c['c']))
+            v2 = _copy.deepcopy(v)
+            with_tail(v2, rng, entry=needs(c)[1])
+            chosen += [v, v2]
     for b in chosen:
         m = b['steps'][0]['call']['m']
         if len(b['steps']) < 4 and (m in ('PublishAsync', 'Subscribe') or rng.random() < 0.3):
@@ -480,7 +540,7 @@ def run(rep, tier, seed, replay):
             tls_ok = set(MODEL_METHODS) - {'PublishAsync'}
             tls_b = [copy.deepcopy(b) for b in chosen
                      if all(s['a'] != 'Call' or (s['call']['c'] == 'alice' and s['call']['m'] in tls_ok) for s in b['steps'])]
-            tls_b.sort(key=lambda b: not unauthorised(b['cfg']['policy'], b['steps'][0]['call']))
+            tls_b.sort(key=lambda b: missing_needs(b['cfg']['policy'], b['steps'][0]['call']) == 'none')
             seen_m = {}
             pick = []
             for b in tls_b:          # spread over methods, unauthorised first
